@@ -9,6 +9,8 @@ Direct oracle (O) on the real classes:
   * `Item.decode` of any valid encoding (also with more length bytes than needed; first accepted by the Lean reference `decodeAny`)
     re-encodes to the canonical bytes;
   * an item built from a mutable container (list, nested list, bytearray) does not change when the container is edited afterwards;
+  * text outside the character set of A / J (above U+00FF; backslash, tilde, CJK for J) is refused at construction or encode(), never
+    sent with other characters, and refused exactly where the variables API refuses it;
   * `Item.from_value` picks BOOLEAN / A / B / L and for integers the narrowest U1..U8 (non-negative) or I1..I8 (negative), value unchanged.
 """
 from __future__ import annotations
@@ -185,6 +187,37 @@ def oracle_alias(res, tag, src_repr):
                 return
 
 
+CHARSET_POOL = list(range(0x100)) + [0xA5, 0x203E] + list(range(0xFF61, 0xFFA0)) + [0xFF60, 0xFFA0, 0x100, 0x17F, 0x20AC, 0x3042, 0x4E2D, 0xFFFD, 0x1F600, 0x10FFFF]
+
+
+def oracle_charset(res, t, cps, via="ctor"):
+    """text the item's character set cannot represent is never sent altered: the Item API refuses it (at construction or at encode())
+    wherever the format has no encoding for it — which is also where the variables API refuses it; representable text gives the E5 bytes"""
+    case = {"kind": "charset", "type": t, "cps": list(cps), "via": via}
+    text = "".join(chr(c) for c in cps)
+    try:
+        want = K.own_encode((t, list(cps)))
+    except Exception:  # noqa: BLE001
+        want = None
+    try:
+        K.VARCLS[t](text).encode()
+        var_ok = True
+    except Exception:  # noqa: BLE001
+        var_ok = False
+    try:
+        it = I.Item.from_value(text) if via == "from_value" else K.ITEMCLS[t](text)
+        enc = it.encode()
+    except Exception:  # noqa: BLE001
+        enc = None
+    if want is None and enc is not None:
+        res.violate("item-sends-altered-text", f"{t} item built from text outside its character set is encoded (to other characters) instead of being refused",
+                    case, "refusal", enc.hex()[:200])
+    elif want is not None and enc != want:
+        res.violate("encode-not-E5", f"{t} item of representable text is not encoded to its E5 bytes", case, want.hex()[:200], None if enc is None else enc.hex()[:200])
+    elif var_ok != (enc is not None):
+        res.violate("apis-differ", "one item API sends the text, the other refuses it", case, var_ok, enc is not None)
+
+
 def oracle_decode(res, v, data: bytes, ref_val=None):
     """`data` is a valid E5 encoding of v (any number of length bytes): decode, re-encode = canonical"""
     case = {"kind": "decode", "val": js(v), "data": data.hex()}
@@ -256,6 +289,8 @@ def replay_case(res, case):
     elif k == "ctor":
         oracle_ctor(res, unjs(case["val"]), hlib.Rng(1))
         oracle_ctor(res, unjs(case["val"]), hlib.Rng(2))
+    elif k == "charset":
+        oracle_charset(res, case["type"], case["cps"], case.get("via", "ctor"))
     elif k == "alias":
         oracle_alias(res, case["cls"], case["src"])
     elif k == "decode":
@@ -513,6 +548,23 @@ def main():
         res.bump("ctor_input_form", p[0])
         res.bump("ctor_outcome", "ok" if ans.startswith("ok") else ans)
     hlib.compare_batch(res, drv, "Item constructors (validate_value) vs Model.Item.construct", cases, lines, answers)
+
+    # text inside / outside the character set of A and J: oracle, and Item.encode against the model's encodeText
+    ccases, clines, canswers = [], [], []
+    for t in ("A", "J"):
+        for c in CHARSET_POOL:
+            for cps in ([c], [97, c, 98]):
+                oracle_charset(res, t, cps)
+                res.count(("charset", t, tuple(cps)))
+                v = (t, cps)
+                ccases.append(K.show_val(v))
+                clines.append("item enc " + K.show_val(v))
+                canswers.append(K.impl(lambda t=t, cps=cps: hlib.hexs(K.ITEMCLS[t]("".join(chr(q) for q in cps)).encode())))
+                res.bump("charset_outcome", f"{t} {'ok' if canswers[-1].startswith('ok') else canswers[-1]}")
+        if t == "A":
+            for c in CHARSET_POOL:
+                oracle_charset(res, "A", [c], via="from_value")
+    hlib.compare_batch(res, drv, "Item(str).encode() inside/outside the character set vs Model.Item.encode (encodeText)", ccases, clines, canswers)
 
     # aliasing: every constructor input form that is a mutable container
     for tag in TAGS:
